@@ -5,6 +5,7 @@ import (
 	"context"
 	"errors"
 	"fmt"
+	"google.golang.org/grpc/metadata"
 	"math/rand"
 	"sort"
 	"strings"
@@ -206,6 +207,7 @@ func oneCase(c *vk.Ctx, i int, r *rand.Rand, p *sem.Prepared, srv *drive.Srv) {
 				c.Count("evaluations_items_compared", 1)
 			}
 		}
+		evaluationsInheritance(c, r, p, srv, rc, rctx, ctxs, reqs)
 		// searches
 		searches := 0
 		for _, nd := range nodes {
@@ -340,4 +342,145 @@ func guardWatched(c *vk.Ctx, api string, f func() error) error {
 		return drive.ErrHung
 	}
 	return err
+}
+
+// evaluationsInheritance exercises what the plain Evaluations block does not: items that leave out
+// subject / resource / action / context and inherit the REQUEST-level value (not a neighbour's), items
+// with an explicit empty context (no context at all, not the request-level one), items with their own
+// context, and the Openfga-Authorization-Model-Id header naming an older model of the store. Every item
+// is compared with the native Check of its effective request; an item is judged only when the native
+// Check and the reference agree on a decision (or the native Check fails and the reference value is not T).
+func evaluationsInheritance(c *vk.Ctx, r *rand.Rand, p *sem.Prepared, srv *drive.Srv, rc *ref.Case, rctx *structpb.Struct, ctxs []*structpb.Struct, reqs []sem.Request) {
+	if len(reqs) < 3 {
+		return
+	}
+	rels := func(o string) []string { return p.Ref.RelationNames(typeOf(o)) }
+	has := func(xs []string, x string) bool {
+		for _, y := range xs {
+			if y == x {
+				return true
+			}
+		}
+		return false
+	}
+	empty := &structpb.Struct{Fields: map[string]*structpb.Value{}}
+	for si, semn := range []authzenv1.EvaluationsSemantic{authzenv1.EvaluationsSemantic_execute_all, authzenv1.EvaluationsSemantic_deny_on_first_deny, authzenv1.EvaluationsSemantic_permit_on_first_permit} {
+		d := reqs[r.Intn(len(reqs))] // request-level defaults
+		// older model through the header: the permissive earlier model of the store (no conditions there
+		// matter: only item shapes 0-3 are used with it)
+		useHeader := p.PermID != "" && r.Intn(3) == 0
+		model := ""
+		ctx := context.Background()
+		if useHeader {
+			model = p.PermID
+			ctx = metadata.NewIncomingContext(ctx, metadata.Pairs("openfga-authorization-model-id", p.PermID))
+		}
+		req := &authzenv1.EvaluationsRequest{StoreId: p.Store, Context: rctx, Subject: subjectOf(d.User), Resource: resourceOf(d.Object), Action: &authzenv1.Action{Name: d.Relation},
+			Options: &authzenv1.EvaluationsOptions{EvaluationsSemantic: semn}}
+		type eff struct {
+			rq    sem.Request
+			shape int
+		}
+		var effs []eff
+		n := 4 + r.Intn(5)
+		for k := 0; k < n; k++ {
+			w := reqs[r.Intn(len(reqs))]
+			item := &authzenv1.EvaluationsItemRequest{}
+			e := sem.Request{Object: d.Object, Relation: d.Relation, User: d.User, Ctx: rctx}
+			shape := r.Intn(6)
+			if useHeader && shape > 3 {
+				shape = r.Intn(4)
+			}
+			switch shape {
+			case 1: // only the resource
+				if !has(rels(w.Object), d.Relation) {
+					shape = 0
+				}
+			case 3: // only the action
+				if !has(rels(d.Object), w.Relation) {
+					shape = 0
+				}
+			case 5:
+				if len(ctxs) < 2 {
+					shape = 0
+				}
+			}
+			switch shape {
+			case 0, 4, 5:
+				item.Subject, item.Resource, item.Action = subjectOf(w.User), resourceOf(w.Object), &authzenv1.Action{Name: w.Relation}
+				e.User, e.Object, e.Relation = w.User, w.Object, w.Relation
+				if shape == 4 {
+					item.Context, e.Ctx = empty, empty
+				}
+				if shape == 5 {
+					oc := ctxs[r.Intn(len(ctxs))]
+					if oc == nil {
+						oc = empty
+					}
+					item.Context, e.Ctx = oc, oc
+				}
+			case 1:
+				item.Resource, e.Object = resourceOf(w.Object), w.Object
+			case 2:
+				item.Subject, e.User = subjectOf(w.User), w.User
+			case 3:
+				item.Action, e.Relation = &authzenv1.Action{Name: w.Relation}, w.Relation
+			}
+			req.Evaluations = append(req.Evaluations, item)
+			effs = append(effs, eff{e, shape})
+		}
+		var resp *authzenv1.EvaluationsResponse
+		err := drive.Guard(func() error {
+			var err error
+			resp, err = srv.S.Evaluations(ctx, req)
+			return err
+		})
+		c.Case(fmt.Sprintf("evaluations-inherit|%s|header=%v|%d", semn, useHeader, si), true)
+		c.Count("evaluations_inheritance_batches", 1)
+		if err != nil {
+			c.Count("evaluations_inheritance_batches_failing_as_a_whole(not_judged)", 1)
+			continue
+		}
+		got := resp.GetEvaluations()
+		// native answers of the effective requests, in order, with the short-circuit rule
+		rcs := map[string]*ref.Case{}
+		for k, e := range effs {
+			if k >= len(got) {
+				break
+			}
+			no := srv.Check(drive.Req{Store: p.Store, Model: model, Object: e.rq.Object, Relation: e.rq.Relation, User: e.rq.User, Ctx: e.rq.Ctx})
+			want := no.Err == nil && no.Allowed
+			c.Count(fmt.Sprintf("evaluations_inheritance_items_shape%d", e.shape), 1)
+			judged := useHeader // the permissive model has no rewrites and no conditions in play: the native answer is stable
+			if !useHeader {
+				key := gen.CtxString(e.rq.Ctx)
+				rcI, ok := rcs[key]
+				if !ok {
+					rcI = ref.NewCase(p.Ref, p.Stored, e.rq.Ctx, sem.ExtraObjects(nil, []string{e.rq.Object, e.rq.User})...)
+					rcs[key] = rcI
+				}
+				kI := rcI.Eval(e.rq.User).K(e.rq.Object, e.rq.Relation)
+				// judged when native and reference agree on a decision, or the native call fails and the
+				// reference does not say T (so a 'true' from AuthZEN cannot be the engine's other face)
+				judged = (no.Err == nil && kI != ref.E && (kI == ref.T) == no.Allowed) || (no.Err != nil && kI != ref.T)
+			}
+			if judged && got[k].GetDecision() != want {
+				c.Violation("", fmt.Sprintf("evaluations-inherit|%s|shape%d|header=%v", semn, e.shape, useHeader),
+					fmt.Sprintf("Evaluations(%s, request-level subject %s resource %s action %s ctx %s, model header %q) item %d (shape %d: effective subject %s, resource %s, action %s, ctx %s) = %v, native Check of the effective request = %s",
+						semn, d.User, d.Object, d.Relation, gen.CtxString(rctx), model, k, e.shape, e.rq.User, e.rq.Object, e.rq.Relation, gen.CtxString(e.rq.Ctx), got[k].GetDecision(), no),
+					wit(p, e.rq, no.String(), fmt.Sprint(got[k].GetDecision())))
+				break
+			}
+			// the short-circuit position is judged through the items: a batch cut too early or too late
+			// shows as a missing / extra item below
+			stop := (semn == authzenv1.EvaluationsSemantic_deny_on_first_deny && !want) || (semn == authzenv1.EvaluationsSemantic_permit_on_first_permit && want)
+			if judged && stop && len(got) != k+1 {
+				c.Violation("", "evaluations-inherit-length|"+semn.String(), fmt.Sprintf("Evaluations(%s) returned %d results although item %d decides the batch (native %s)", semn, len(got), k, no), wit(p, e.rq, fmt.Sprint(k+1), fmt.Sprint(len(got))))
+				break
+			}
+			if !judged || stop {
+				break // later items depend on an unjudged / deciding one
+			}
+		}
+	}
 }
